@@ -245,6 +245,24 @@ def check_big_split(rep, row):
     rep.nontrivial.add('bigsplit-%d' % v)
 
 
+def check_infinite(rep):
+    """split of an infinite amount (a concentration considered infinite in an
+    environment, written float('inf') or 'Infinity'): both daughters keep it"""
+    for name, val in (('inf', float('inf')), ('Infinity', 'Infinity')):
+        rep.evaluations += 1
+        vars_ = {'a': {'_default': 0.0, '_divider': 'split', '_updater': 'set', '_emit': False}}
+        case = {'divider': 'split', 'v': name}
+        try:
+            eng, snaps = run_division(vars_, {'a': val})
+        except Exception as e:
+            viol(rep, 'division raised %r' % (e,), case)
+            continue
+        s = strip(snaps[0])['agents']
+        a1, a2 = s['d1']['st']['a'], s['d2']['st']['a']
+        if not (a1 == val and a2 == val):
+            viol(rep, 'split of %r gave %r, %r' % (val, a1, a2), case)
+
+
 def check_dict(rep, row):
     keys = sorted(row['keys'])
     outs = {(tuple(sorted(p[0])), tuple(sorted(p[1]))) for p in row['outs']}
@@ -386,17 +404,18 @@ def run(rep, tier, scratch):
     for row in t['scalar']:
         if tier == 'quick' and row['v'] in (4, 6, 7):
             continue
-        check_scalar(rep, row, t['setvalue'], seeds)
+        rep.guard(check_scalar, rep, row, t['setvalue'], seeds, what='scalar divider', detail=row)
     for v in (0, 1, 3, 8):
-        check_float_split(rep, v)
+        rep.guard(check_float_split, rep, v, what='float split', detail=v)
     for row in t['scalar']:
         if row['d'] == 'split':
-            check_big_split(rep, row)
+            rep.guard(check_big_split, rep, row, what='big split', detail=row)
+    rep.guard(check_infinite, rep, what='infinite split')
     for row in t['dict']:
-        check_dict(rep, row)
+        rep.guard(check_dict, rep, row, what='split_dict', detail=row)
     for row in t['custom']:
-        check_custom(rep, row)
-    check_special(rep, t['scalar'])
+        rep.guard(check_custom, rep, row, what='custom divider', detail=row)
+    rep.guard(check_special, rep, t['scalar'], what='special dividers')
     rep.traces = len(t['scalar']) + len(t['dict']) + len(t['custom'])
     rep.add_sample(t['scalar'][len(t['scalar']) // 2])
     rep.add_sample(t['dict'][-1])
